@@ -418,7 +418,47 @@ def _root(key, cc, testnet):
     return b32.root_serialized_extended_key(_key(key), cc, testnet=testnet)
 
 
+_EXC = {"AssertionError": AssertionError, "ValueError": ValueError, "KeyError": KeyError, "IndexError": IndexError,
+        "TypeError": TypeError, "OverflowError": OverflowError, "AttributeError": AttributeError}
+
+
+def _dump_fields(text):
+    """the --dump JSON -> (version, depth, fingerprint, child number, chain code, key bytes)"""
+    import json
+    lines = [l for l in text.splitlines() if l.strip()]
+    if len(lines) != 1:
+        return ("unexpected stderr", text)
+    d = json.loads(lines[0])
+    if sorted(d) != ["chaincode", "child_no", "depth", "key", "parent_key_fingerprint", "version"]:
+        return ("unexpected dump keys", sorted(d))
+    return (bytes.fromhex(d["version"]), d["depth"].to_bytes(1, "big"), bytes.fromhex(d["parent_key_fingerprint"]),
+            d["child_no"].to_bytes(4, "big"), bytes.fromhex(d["chaincode"]), bytes.fromhex(d["key"]))
+
+
+def _cli_hd(cv, M, path, xkey, xpub, dump, pr):
+    """`bits hd <path> [--xpub] [--dump] [-P]` with the key on stdin, through bits.__main__.main()
+    -> (stdout, dumped fields | None); a refusal (ERROR return / exit code / escaped exception) raises the class the
+    CLI reported -- unless it wrote to stdout or stderr anyway, which is returned as a value (and so disagrees)"""
+    import cli
+    argv = ["hd", path] + (["--xpub"] if xpub else []) + (["--dump"] if dump else []) + (["-P"] if pr else [])
+    with _Ctx(cv, M):
+        r = cli.run_main(argv, stdin=xkey)
+    refused = r["exc"] is not None or r["exit"] not in (None, 0) or (isinstance(r["rc"], str) and r["rc"].startswith("ERROR"))
+    if refused:
+        if r["out"] or (r["err"] and r["exit"] is None):
+            return ("refused-but-wrote", r["out"], r["err"])
+        raise _EXC.get(r["exc"], RuntimeError)("cli refused: %r" % (r["rc"],))
+    if r["rc"] is not None:
+        return ("unexpected return value", repr(r["rc"]))
+    if dump:
+        return (r["out"], _dump_fields(r["err"]))
+    if r["err"]:
+        return ("unexpected stderr", r["err"])
+    return (r["out"], None)
+
+
 IMPL = {
+    "cli_hd": _cli_hd,
     "ser43": _ser43, "root": _root,
     "ckdpriv": _ckdpriv, "ckdpub": _ckdpub, "commute": _commute, "master": _master, "ser": _ser, "deser": _deser, "deser_dict": _deser_dict,
     "get_xpub": _get_xpub, "derive": _derive, "derive_stepwise": _derive_stepwise,
@@ -433,7 +473,7 @@ def _cargs(cv, M):
 
 def model_call(c):
     op, a = c["op"], c["args"]
-    if op in ("ckdpriv", "ckdpub", "commute", "deser", "get_xpub", "derive"):
+    if op in ("ckdpriv", "ckdpub", "commute", "deser", "get_xpub", "derive", "cli_hd"):
         return "c09_" + op, _cargs(a[0], a[1]) + list(a[2:])
     if op == "deser_dict":
         return "c09_deser", _cargs(a[0], a[1]) + list(a[2:])
@@ -457,6 +497,16 @@ def canon(c, v):
             ver, depth, fp, child, cc, key = v
             k = ["priv", key] if isinstance(key, int) else ["pub", key[0], key[1] & 1]
             return [ver, int.from_bytes(depth, "big"), fp, int.from_bytes(child, "big"), cc, k]
+    if c["op"] == "cli_hd" and isinstance(v, (list, tuple)) and len(v) == 2 and isinstance(v[1], (list, tuple)) \
+            and len(v[1]) == 6:
+        # the dump shows the key as ser256(k) / serP(K); the model returns the deserialised int / point
+        f = list(v[1])
+        k = f[5]
+        if isinstance(k, int) and not isinstance(k, bool) and 0 <= k < (1 << 256):
+            f[5] = k.to_bytes(32, "big")
+        elif isinstance(k, (list, tuple)) and len(k) == 2 and all(isinstance(z, int) and 0 <= z < (1 << 256) for z in k):
+            f[5] = serP(tuple(k))
+        return [v[0], f]
     return v
 
 
@@ -810,6 +860,60 @@ def _with_dict_mode(cases):
     return out
 
 
+def _gen_cli(rng, T, out):
+    """`bits hd`: every flag combination x key kind x path kind, acceptance and refusal; mostly on the small curve"""
+    combos = [(xp, du, pr) for xp in (False, True) for du in (False, True) for pr in (False, True)]
+    for cv, M in (((43, 33), (79, 69)) if T else ((43, 33),)):
+        C, hf = curve(cv), hm(M)
+        for rep in range(6 if T else 1):
+            for testnet in (False, True):
+                for public in (False, True):
+                    # a start key (any depth) and a short path that derives (a few retries), else whatever came last
+                    for _ in range(8):
+                        X = _small_xk(rng, cv, public, testnet=testnet)
+                        idxs = [_rand_index(rng, hardened=(False if public else None)) for _ in range(rng.randrange(0, 4))]
+                        if not isinstance(ref_derive(C, hf, X, idxs), str):
+                            break
+                    cls = _classify_derive(C, hf, X, idxs)
+                    for (xp, du, pr) in combos:
+                        out.append(case("cli-hd-%s-%s%s%s" % ("pub" if public else "prv", "x" if xp else "-", "d" if du else "-",
+                                                              "P" if pr else "-") + ("" if cls.startswith("ok") else "-" + cls),
+                                        "cli_hd", cv, M, path_text(public, idxs), X.ser(), xp, du, pr))
+                    s = X.ser()
+                    P = "M" if public else "m"
+                    Q = "m" if public else "M"
+                    for (xp, du, pr) in ((False, False, False), (True, True, False)):
+                        # refusals: wrong kind, malformed path, hardened from public, index range, invalid key, empty input
+                        out.append(case("cli-hd-refuse-kind", "cli_hd", cv, M, Q + "/1", s, xp, du, pr))
+                        out.append(case("cli-hd-refuse-kind", "cli_hd", cv, M, Q, s, xp, du, pr))
+                        out.append(case("cli-hd-refuse-path", "cli_hd", cv, M, P + "/x", s, xp, du, pr))
+                        out.append(case("cli-hd-refuse-path", "cli_hd", cv, M, P + "/", s, xp, du, pr))
+                        out.append(case("cli-hd-refuse-path", "cli_hd", cv, M, "x/1", s, xp, du, pr))
+                        out.append(case("cli-hd-refuse-index", "cli_hd", cv, M, P + "/4294967296", s, xp, du, pr))
+                        out.append(case("cli-hd-%s" % ("refuse-hardened-pub" if public else "hardened-prv"), "cli_hd", cv, M,
+                                        P + "/1'", s, xp, du, pr))
+                        j = rng.randrange(len(s))
+                        out.append(case("cli-hd-refuse-checksum", "cli_hd", cv, M, P + "/1",
+                                        s[:j] + (b"2" if s[j:j + 1] != b"2" else b"3") + s[j + 1:], xp, du, pr))
+                        out.append(case("cli-hd-refuse-badchar", "cli_hd", cv, M, P + "/1", s + b"\n", xp, du, pr))
+                        out.append(case("cli-hd-refuse-empty", "cli_hd", cv, M, P, b"", xp, du, pr))
+                        d = X.payload()
+                        out.append(case("cli-hd-refuse-invalid-key", "cli_hd", cv, M, P,
+                                        b58c(d[:45] + (b"\x02" + (1).to_bytes(32, "big") if public else b"\0" + bytes(32))), xp, du, pr))
+                        out.append(case("cli-hd-refuse-version", "cli_hd", cv, M, P, b58c(b"\x04\x88\xb2\x1f" + d[4:]), xp, du, pr))
+    # secp256k1: the BIP's vector 1, one step each, the flag combinations that matter (few scalar multiplications)
+    nodes = VECTORS[0][1]
+    root, n1, n2 = nodes[0], nodes[1], nodes[2]
+    for (xp, du, pr) in (combos if T else [(False, False, False), (True, True, False), (False, True, True), (True, False, False)]):
+        out.append(case("cli-hd-secp-prv", "cli_hd", 0, 0, "m/0'", root[2].encode(), xp, du, pr))
+    out.append(case("cli-hd-secp-prv", "cli_hd", 0, 0, "m/1", n1[2].encode(), True, True, False))
+    out.append(case("cli-hd-secp-pub", "cli_hd", 0, 0, "M/1", n1[1].encode(), True, True, False))
+    out.append(case("cli-hd-secp-pub", "cli_hd", 0, 0, "M", n2[1].encode(), False, True, True))
+    out.append(case("cli-hd-secp-refuse-hardened-pub", "cli_hd", 0, 0, "M/0'", root[1].encode(), True, True, False))
+    for v in VECTOR5[:16 if T else 6]:
+        out.append(case("cli-hd-secp-refuse-vector5", "cli_hd", 0, 0, "m" if v.startswith("xprv") else "M", v.encode(), False, True, False))
+
+
 def gen_cases(rng, tier):
     return _with_dict_mode(_gen_cases(rng, tier))
 
@@ -822,6 +926,7 @@ def _gen_cases(rng, tier):
     _gen_small(rng, T, out)
     _gen_serde(rng, T, out)
     _gen_secp(rng, T, out)
+    _gen_cli(rng, T, out)
     return out
 
 
@@ -933,6 +1038,8 @@ def prop_oracle(c):
         if ok and r != X.neuter(C).ser():
             return "get_xpub is not the neutered key at the same position"
         return None
+    if op == "cli_hd":
+        return _oracle_cli(a)
     if op in ("derive", "derive_stepwise"):
         if op == "derive":
             path, s = a[2], a[3]
@@ -964,6 +1071,54 @@ def prop_oracle(c):
         if not ok2 or r2 != r:
             return "deriving the path one step at a time gives a different key"
         return None
+    return None
+
+
+def _oracle_cli(a):
+    """the CLI writes what the library derives (and what BIP32 says); --dump describes exactly the key it emits;
+    whatever the library refuses the CLI refuses without writing anything"""
+    cv, M, path, s, xp, du, pr = a
+    C, hf = curve(cv), hm(M)
+    ok, r = _try(lambda: _cli_hd(cv, M, path, s, xp, du, pr))
+    if ok and (len(r) != 2 or not isinstance(r[0], bytes)):
+        return "bits hd: %s" % (short(r, 300),)
+
+    def lib():
+        y = _derive(cv, M, path, s)
+        return _get_xpub(cv, M, y) if xp else y
+    ok_l, want_l = _try(lib)
+    if ok != ok_l:
+        return "bits hd %s but the library %s on the same input" % ("succeeds" if ok else "refuses", "succeeds" if ok_l else "refuses")
+    if not ok:
+        return None
+    out, dumped = r
+    nl = b"\n" if pr else b""
+    if out != want_l + nl:
+        return "bits hd wrote a key that is not derive_from_path%s of the input" % (" + get_xpub" if xp else "")
+    emitted = out[:len(out) - len(nl)]
+    X = ref_parse(C, s)
+    parsed = _canonical_path(path)
+    if X is not None and parsed is not None and parsed[0] == X.public:
+        want = ref_derive(C, hf, X, parsed[1])
+        if isinstance(want, str):
+            return "bits hd returned a key where BIP32 gives none (%s)" % want
+        if xp:
+            want = want.neuter(C)
+        if emitted != want.ser():
+            return "bits hd output differs from BIP32"
+    if du:
+        E = ref_parse(C, emitted)
+        if E is None:
+            return "bits hd emitted an invalid extended key"
+        f = E.fields()
+        f[5] = serP(E.key) if E.public else E.key.to_bytes(32, "big")
+        if dumped is None or len(dumped) != 6 or common.norm(list(dumped)) != common.norm(f):
+            names = ["version", "depth", "fingerprint", "child number", "chain code", "key"]
+            dl = list(dumped) if dumped is not None and len(dumped) == 6 else [None] * 6
+            diff = [nm for nm, x, y in zip(names, dl, f) if common.norm(x) != common.norm(y)]
+            return "--dump does not describe the emitted key: differs in " + ", ".join(diff)
+    elif dumped is not None:
+        return "dump written without --dump"
     return None
 
 
@@ -1027,14 +1182,14 @@ def extra_checks(ctx):
     T = tier == "thorough"
     out = []
     cases = gen_cases(__import__("random").Random("C09-oracle-%s" % tier), tier)
-    budget = {"cheap": 6000 if T else 1200, "secp": 60 if T else 14}
+    budget = {"cheap": 6000 if T else 800, "secp": 60 if T else 14}
     per_cls = {}
     n_eval = 0
     for c in cases:
         cv = c["args"][0] if c["op"] not in ("py_int", "master", "ser", "ser43", "root") else None
-        heavy = cv == 0 and c["op"] in ("derive", "derive_stepwise", "commute", "ckdpriv", "ckdpub", "get_xpub")
+        heavy = cv == 0 and c["op"] in ("derive", "derive_stepwise", "commute", "ckdpriv", "ckdpub", "get_xpub", "cli_hd")
         kind = "secp" if heavy else "cheap"
-        lim = (3 if T else 1) if heavy else (40 if T else 8)
+        lim = (3 if T else 1) if heavy else (40 if T else 4)
         if budget[kind] <= 0 or per_cls.get(c["cls"], 0) >= lim or c["op"] == "py_int":
             continue
         per_cls[c["cls"]] = per_cls.get(c["cls"], 0) + 1
